@@ -78,7 +78,7 @@ def run(ctx):
     run_driver_checked(ctx, exe_a, [scr, ctx.path("mm_asan.ndjson")], what="drv_mwmerge(asan)", replay_src=scr, timeout=3000)
     if not (os.path.exists(tr) and os.path.getsize(tr)):
         return
-    tl = [x for x in open(tr).read().split("\n") if x]
+    tl = [x for x in read_text(tr).split("\n") if x]
     ctx.cov["merge_calls_validated"] = len(tl) - 1
     ctx.sample({"recorded_call": json.loads(tl[len(tl) // 2])})
     # group calls into chunks of 25 per "execution" so that one bad call does not hide the others for long
